@@ -613,6 +613,8 @@ class Gen(object):
         kw["epsilon"] = 0.01
       if self.chance(4):
         kw["scale"] = False
+      if self.chance(4):
+        kw["center"] = False
     ld = {"name": self.name(cls), "cls": cls, "in": [src], "kw": kw, "q": q}
     return ld, [out[0], out[1], filters]
 
@@ -637,6 +639,8 @@ class Gen(object):
         kw["ema_freeze_delay"] = self.i(1, 50)
       if self.chance(4):
         kw["scale"] = False
+      if self.chance(4):
+        kw["center"] = False
     ld = {"name": self.name(cls), "cls": cls, "in": [src], "kw": kw, "q": q}
     return ld, [out[0], out[1], c * dm]
 
@@ -671,7 +675,7 @@ class Gen(object):
       out = [-(-h // s[0]), -(-w // s[1])]
     kw = {"pool_size": p, "strides": strides, "padding": padding}
     q = {"average_quantizer": self.pick(
-        [None, "b", "b"] if self.profile != "c14" else [None, "b", "b", "b", "b", "b"]) and
+        [None, "b", "b"]) and
          {"q": "quantized_bits",
           "kw": {"bits": self.i(3, 8), "integer": 0, "symmetric": self.pick([0, 1]),
                  "alpha": self.pick([None, 1.0])}},
@@ -682,7 +686,7 @@ class Gen(object):
 
   def l_qgap(self, shape, src):
     q = {"average_quantizer": self.pick(
-        [None, "b", "b"] if self.profile != "c14" else [None, "b", "b", "b", "b", "b"]) and
+        [None, "b", "b"]) and
          {"q": "quantized_bits",
           "kw": {"bits": self.i(3, 10), "integer": 0, "symmetric": self.pick([0, 1]),
                  "alpha": self.pick([None, 1.0])}},
@@ -794,7 +798,7 @@ class Gen(object):
 
   def l_qsepconv1d(self, shape, src):
     t, c = shape
-    ks, st_, dl, padding, out = self._conv_geom(1, [t])
+    ks, st_, dl, padding, out = self._conv_geom(1, [t], causal=True)
     filters = self.i(1, 4)
     kw = {"filters": filters, "kernel_size": ks[0], "strides": st_[0],
           "padding": padding, "dilation_rate": dl[0],
@@ -815,20 +819,16 @@ class Gen(object):
       kw["go_backwards"] = True
     if self.chance(4):
       kw["unroll"] = True
-    if cls == "QGRU" and not kw["use_bias"] and self.chance(2):
-      kw["reset_after"] = True   # with a bias: array_ops.unstack (absent here)
+    if cls == "QGRU" and self.chance(2):
+      kw["reset_after"] = True
     if cls == "QLSTM" and self.chance(3):
       kw["unit_forget_bias"] = False
     if cls != "QSimpleRNN" and self.chance(3):
       kw["implementation"] = 2
     q = {"kernel_quantizer": self.wq(),
-         # QGRUCell without a recurrent quantizer multiplies the state by the
-         # *input* kernel and cannot even be built unless input dim == units
-         "recurrent_quantizer": self.wq(allow_none=(cls != "QGRU")),
+         "recurrent_quantizer": self.wq(),
          "bias_quantizer": self.wq(kernel=False),
          "state_quantizer": self.pick([None, "x"]) and self.q_bits("act")}
-    if cls == "QLSTM" and not kw["use_bias"]:
-      q["bias_quantizer"] = None   # QLSTMCell quantizes the absent bias
     a = self.aq(allow_none=False, hswish=False)
     q["activation"] = a
     if cls != "QSimpleRNN":
@@ -1076,7 +1076,12 @@ def freeze_chain_strategy():
         ld, osh = g.l_qconv2d(sh, cur)
         ld["q"] = {"kernel_quantizer": kq(), "bias_quantizer": bq(),
                    "activation": None}
-        ld["kw"].pop("mask", None)
+        if not g.chance(3):
+          ld["kw"].pop("mask", None)
+        else:
+          ks = ld["kw"]["kernel_size"]
+          ld["kw"]["mask"] = [[g.i(0, 1) for _ in range(ks[1])]
+                              for _ in range(ks[0])]
       elif k == "dw":
         ld, osh = g.l_qdwconv2d(sh, cur)
         ld["q"] = {"depthwise_quantizer": kq(), "bias_quantizer": bq(),
